@@ -39,7 +39,8 @@ structure InvCore (w : MW) : Prop where
       (∀ s, s ∈ xe.mx.fixed → xe.mx.groupIds.get s = none) ∧
       (∀ s, s ∈ xe.mx.signals ↔ ∃ e, w.sigs.get s = some e ∧ e.parentMux = some x) ∧
       (xe.mx.signalNames.map (·.1)).Nodup ∧
-      (∀ n i, (n, i) ∈ xe.mx.signalNames ↔ i ∈ xe.mx.signals ∧ nameOf w i = n)
+      (∀ n i, (n, i) ∈ xe.mx.signalNames ↔ i ∈ xe.mx.signals ∧ nameOf w i = n) ∧
+      xe.mx.signals.Nodup
   /-- a parent link leads to a multiplexer that belongs to the same message (or to none) -/
   parentIsMux : ∀ s e x, w.sigs.get s = some e → e.parentMux = some x →
       ∃ xe gc gs, w.sigs.get x = some xe ∧ xe.kind = .mux gc gs ∧ xe.parentMsg = e.parentMsg
